@@ -171,6 +171,9 @@ def run(facts, chk, tier, only=None):
     # the union (interpreted; shared with C01.pal).  Was a shape rule on the IUPAC[...] index expression inside the closure.
     from . import c01
     chk.guard('C15.use', 'C15.use:tables', lambda: c01.check_tables(facts, chk, 'C15.use'))
+    # the union table in use: the dictionary of small multi-record files (repeated split k-mers in one sample) holds the code of the observed base set
+    from . import skiter
+    chk.guard('C15.use', 'C15.use:dictionary:run', lambda: skiter.check_dict(facts, chk, 'C15.use', tier))
     # the distance weights in use: variant_dist on every pair of codes == 1 - sum_b p1(b) p2(b), p uniform over the code's base set (N: no weight)
     from . import c14
     r = chk.guard('C15.use', 'C15.use:variant_dist', lambda: c14.pair_table(facts))
